@@ -107,6 +107,8 @@ func c12Call(sink, rname, path string, size int) {
 // child: one render-to-file call on the main goroutine with no timers running, so that a caller blocked
 // forever on the sink channel is reported by the Go runtime itself ("all goroutines are asleep").
 // args: sink renderer path size fsizeLimit(-1 none)
+const c12CPULimit = 40
+
 func childC12Render(args []string) {
 	sink, rname, path := args[0], args[1], args[2]
 	size, _ := strconv.Atoi(args[3])
@@ -119,6 +121,10 @@ func childC12Render(args []string) {
 			os.Exit(4)
 		}
 	}
+	// a call that neither returns nor blocks but spins is ended by the kernel after c12CPULimit seconds of CPU (the fault-free
+	// renders of these sizes need well under a second); the parent reads the consumed CPU from the exit status
+	cpu := syscall.Rlimit{Cur: c12CPULimit, Max: c12CPULimit + 5}
+	syscall.Setrlimit(syscall.RLIMIT_CPU, &cpu)
 	fmt.Println("CALLING", sink, rname, path, size, limit)
 	c12Call(sink, rname, path, size)
 	fmt.Println("\nRETURNED")
@@ -202,6 +208,11 @@ func checkC12(c *Ctx) {
 	dir := scratch()
 	os.MkdirAll(filepath.Join(dir, "rodir"), 0o555)
 	os.MkdirAll(filepath.Join(dir, "isdir.stl"), 0o755)
+	os.WriteFile(filepath.Join(dir, "plainfile"), []byte("x"), 0o644)
+	for _, ext := range []string{"stl", "3mf", "dxf", "svg"} {
+		os.Symlink(filepath.Join(dir, "build", "latest", "part."+ext), filepath.Join(dir, "dangling."+ext)) // target directory does not exist
+		os.Symlink(filepath.Join(dir, "loop."+ext), filepath.Join(dir, "loop."+ext))
+	}
 	// fault-free sizes
 	type combo struct {
 		sink, r string
@@ -239,6 +250,10 @@ func checkC12(c *Ctx) {
 			{"create-path-is-directory", filepath.Join(dir, "isdir.stl")},
 			{"create-readonly-dir", filepath.Join(dir, "rodir", "x."+cb.sink)},
 			{"dev-full", "/dev/full"},
+			{"create-dangling-symlink", filepath.Join(dir, "dangling."+cb.sink)},
+			{"create-symlink-loop", filepath.Join(dir, "loop."+cb.sink)},
+			{"create-below-a-regular-file", filepath.Join(dir, "plainfile", "x."+cb.sink)},
+			{"create-name-too-long", filepath.Join(dir, strings.Repeat("n", 300)+"."+cb.sink)},
 		} {
 			faults = append(faults, c12Fault{cb.sink, cb.r, f.name, cb.size, -1, f.path})
 		}
@@ -280,8 +295,10 @@ func checkC12(c *Ctx) {
 		f := faults[i]
 		res := runChildPipe("", "c12-render", []string{f.Sink, f.Renderer, f.Path, strconv.Itoa(f.Size), strconv.FormatInt(f.Limit, 10)}, nil, 3*time.Minute)
 		c.Eval(1)
-		os.Remove(f.Path)
-		failed := strings.Contains(res.Out, "file too large") || strings.Contains(res.Out, "no space left") ||
+		if !strings.Contains(f.Fault, "symlink") {
+			os.Remove(f.Path)
+		}
+		failed := strings.Contains(res.Out, "too many levels of symbolic links") || strings.Contains(res.Out, "not a directory") || strings.Contains(res.Out, "file name too long") || strings.Contains(res.Out, "file too large") || strings.Contains(res.Out, "no space left") ||
 			strings.Contains(res.Out, "no such file") || strings.Contains(res.Out, "is a directory") || strings.Contains(res.Out, "permission denied") ||
 			strings.Contains(res.Out, "File too large")
 		var outcome string
@@ -292,6 +309,8 @@ func checkC12(c *Ctx) {
 			outcome = "deadlock"
 		case res.TimedOut && strings.Contains(res.Out, "chan send"):
 			outcome = "blocked-in-chan-send"
+		case !res.TimedOut && res.Signaled && res.UserCPU+res.SysCPU >= (c12CPULimit-1)*time.Second:
+			outcome = "spins"
 		case res.TimedOut:
 			outcome = "watchdog"
 		default:
@@ -311,6 +330,9 @@ func checkC12(c *Ctx) {
 			c.Violate("", fmt.Sprintf("render-hangs To%s with %s renderer, fault %s: the call never returns (%s): %s",
 				strings.ToUpper(f.Sink), f.Renderer, f.Fault, outcome, lastLines(trimDump(res.Out), 6)),
 				map[string]any{"fault": f, "child_output_tail": tailStr(res.Out, 3000)})
+		case "spins":
+			c.Violate("", fmt.Sprintf("render-hangs To%s with %s renderer, fault %s: the call never returns (spinning): it consumed %d s of CPU, where the fault-free render needs under a second, and was ended by the CPU limit",
+				strings.ToUpper(f.Sink), f.Renderer, f.Fault, c12CPULimit), map[string]any{"fault": f, "child_output_tail": tailStr(res.Out, 3000)})
 		case "watchdog":
 			c.Inconclusive(fmt.Sprintf("watchdog expired for %v", f))
 		default:
